@@ -1,9 +1,9 @@
 #!/bin/bash
-# usage: seedcheck.sh <PROP> <mK>   — validates a sub-agent mutation in its scratch worktree and stores it under /verif/seeded/
+# usage: [SEEDROOT=/tmp/seed2 IDPFX=r2] seedcheck.sh <PROP> <mK>   — validates a sub-agent mutation in its scratch worktree and stores it under /verif/seeded/
 # Steps: (a) demo passes on clean tree, (b) patch applies, builds, full suite passes, (c) demo fails with patch.
 export GOFLAGS=-mod=mod GOPROXY=off GOSUMDB=off GOTOOLCHAIN=local
 P=$1; M=$2
-D=/tmp/seed/$P; WT=$D/wt; O=$D/out/$M
+D=${SEEDROOT:-/tmp/seed}/$P; WT=$D/wt; O=$D/out/$M
 [ -f $O/patch.diff ] || { echo "no patch for $P $M"; exit 2; }
 cd $WT || exit 2
 git checkout -q -- . ; git clean -fdq
@@ -26,8 +26,8 @@ if go test -vet=off -count=1 $flags -run "$run" $pkg >>$log 2>&1; then clean=PAS
 git checkout -q -- . ; git clean -fdq
 res "RESULT $P $M suite_with_patch=$suite demo_clean=$clean demo_patched=$patched"
 if [ $suite = PASS ] && [ $clean = PASS ] && [ $patched = FAIL ]; then
-  S=/verif/seeded/$P-$M; mkdir -p $S; cp $O/patch.diff $S/; rm -rf $S/demo; cp -r $O/demo $S/demo
-  python3 - "$O/meta.json" "$S/meta.json" "$P" "$M" "$pkg" "$run" "$flags" <<'PY'
+  S=/verif/seeded/$P-${IDPFX}$M; mkdir -p $S; cp $O/patch.diff $S/; rm -rf $S/demo; cp -r $O/demo $S/demo
+  python3 - "$O/meta.json" "$S/meta.json" "$P" "${IDPFX}$M" "$pkg" "$run" "$flags" <<'PY'
 import json,sys
 src,dst,P,M,pkg,run,flags=sys.argv[1:8]
 m=json.load(open(src))
